@@ -31,6 +31,8 @@ pub struct Profile {
     pub public_handshake: bool,
     /// per-mille chance per round to add offending by-reference proposals (C10)
     pub p_offend: u64,
+    /// per-mille chance per commit to remove the whole right half of the tree in one commit
+    pub p_shrink: u64,
     /// C14: every member picks one of the three shipped providers at random; `suite` is the group's cipher suite
     pub mixed_providers: bool,
     pub suite: u16,
@@ -58,6 +60,7 @@ impl Profile {
             options_mix: true,
             public_handshake: false,
             p_offend: 0,
+            p_shrink: 60,
             mixed_providers: false,
             suite: 1,
             suites: vec![1],
@@ -655,6 +658,19 @@ impl<'a, C: MlsConfig> Hist<'a, C> {
             let tl = self.leaf_of(t);
             if t != c && !removed_targets.contains(&tl) && !updaters.contains(&t) {
                 bv_removes.push(tl);
+            }
+        }
+        // shrink: one commit removes the whole right half of the tree (>= 2 members), so that the node vector is trimmed;
+        // later adds make it grow again (stale caches of the trimmed part show up then)
+        if self.rng.chance(self.prof.p_shrink, 1000) {
+            let n_leaves = (self.w.group(c).export_tree().nodes().len() + 1) / 2;
+            let half = (n_leaves / 2) as u32;
+            let right: Vec<u32> = active.iter().map(|&i| self.leaf_of(i)).filter(|l| *l >= half).collect();
+            let blocked = right.iter().any(|l| removed_targets.contains(l)) || updaters.iter().any(|&u| right.contains(&self.leaf_of(u)));
+            if half >= 2 && cleaf < half && right.len() >= 2 && active.len() - right.len() >= 2 && !blocked && pending_adds.is_empty() {
+                bv_removes = right;
+                bv_adds.clear();
+                self.rep.cover.insert("shrink".into());
             }
         }
         if self.rng.chance(self.prof.p_psk, 1000) {
@@ -1394,6 +1410,7 @@ pub fn run(o: &Opts) -> i32 {
     prof.max_members = o.u64("members", prof.max_members as u64) as usize;
     if o.get("removal_bias").is_some() {
         prof.p_remove = 550;
+        prof.p_shrink = 150;
         prof.p_add = 650;
     }
     let focus_s = o.str("focus", "");
